@@ -895,6 +895,44 @@ theorem c10_fb_stop_cmd_stays_off (P : FbP) (s : FbT) (dts : List Nat) :
   obtain ⟨⟨r1, r2, r3⟩, rp, rt⟩ := c10_fb_idle_run P dts (fbMoveCmd P s 0) h0.1
   exact ⟨r1, r2, r3, by rw [rp, h0.2.1], by rw [rt, h0.2.2]⟩
 
+/-! ### the delayed trigger (start gate after a stop) -/
+
+/-- a direction requested on a shutter at rest before the start gate has passed is not dropped: it is parked for the delayed
+    trigger with the outputs still off ... -/
+theorem c10_request_parked (P : RsP) (s : RsT) (w : Nat) (hrel : s.rel = 0)
+    (hgate : s.sinceStop < startGate + s.lag) :
+    (relReq P s w).pend = w ∧ (relReq P s w).rel = 0 := by
+  unfold relReq
+  simp [hrel, hgate]
+
+/-- ... and when the trigger fires, the parked direction is energised unless the zero-margin guard forbids it (then the
+    outputs stay as they were); nothing stays pending, and a trigger with nothing parked changes nothing -/
+theorem c10_trigger_executes (P : RsP) (s : RsT) :
+    (fireTrig P s).pend = 0 ∧
+    (s.pend = 0 → fireTrig P s = s) ∧
+    (s.pend ≠ 0 → ¬ (P.margin = 0 ∧ ((s.pend = 2 ∧ reportedPos s.pos = 0) ∨ (s.pend = 1 ∧ reportedPos s.pos = 100))) →
+      (fireTrig P s).rel = s.pend) ∧
+    (s.pend ≠ 0 → (P.margin = 0 ∧ ((s.pend = 2 ∧ reportedPos s.pos = 0) ∨ (s.pend = 1 ∧ reportedPos s.pos = 100))) →
+      (fireTrig P s).rel = s.rel) := by
+  unfold fireTrig
+  by_cases hp : s.pend = 0
+  · simp [hp]
+  · refine ⟨by simp [hp], fun h => absurd h hp, ?_, ?_⟩
+    · intro _ hg; simp only [if_neg hp, guardOn]; rw [if_neg hg]
+    · intro _ hg; simp only [if_neg hp, guardOn]; rw [if_pos hg]
+
+/-- request, then trigger: a direction asked for at rest inside the start gate ends up energised once the trigger fires -/
+theorem c10_parked_then_fired (P : RsP) (s : RsT) (w : Nat) (hw : w ≠ 0) (hrel : s.rel = 0)
+    (hgate : s.sinceStop < startGate + s.lag)
+    (hg : ¬ (P.margin = 0 ∧ ((w = 2 ∧ reportedPos s.pos = 0) ∨ (w = 1 ∧ reportedPos s.pos = 100)))) :
+    (fireTrig P (relReq P s w)).rel = w ∧ (fireTrig P (relReq P s w)).pend = 0 := by
+  have hreq : relReq P s w = { s with pend := w } := by unfold relReq; simp [hrel, hgate]
+  rw [hreq]
+  unfold fireTrig
+  simp only [if_neg hw, guardOn]
+  rw [if_neg hg]
+  simp
+
 /-- **C10 (the newest request wins)** a request made while the shutter is on its way somewhere else (a task running or an
     output energised) always becomes the task - also when the reported position happens to equal the requested one at
     that moment (before the repair in /repo such a request was ignored and the shutter ran on to the old target) -/
